@@ -97,7 +97,10 @@ INJECT = {
 # properties that also get the MIR -> SMT instance (run/mirq.py): C01 (Q ratios == reference at full
 # width) and C10 (the Q ratios are that function of the quartiles and the mode on EVERY path, i.e.
 # whatever the permissive flags are, which the Kani lemma c10_direct_* shows on power-of-two q3 only)
-MIR_SMT_PROPS = ("C01", "C10")
+MIR_SMT_PROPS = ("C01", "C10", "C11")
+# C11: the length arithmetic of `update` (entry .. store of the new `len`) for ALL states and ALL
+# slice lengths incl. >= 4 GiB: one inductive step of len + tail_len == min(bytes fed, 2^32)
+MIR_SMT_KIND = {"C01": "qratio", "C10": "qratio", "C11": "len"}
 
 SIMD_OVERFLOW_RE = re.compile(r"attempt to compute `?simd_(add|sub|mul)`? which would overflow")
 
@@ -658,7 +661,7 @@ def cmd_check(args):
             solver_time += entry["solver_s"]
             log("[vf] %s MIR  %-44s %6.1fs queries=%d paths=%s %s" % (
                 {"pass": "ok  ", "fail": "FAIL", "undecided": "??  "}[verdict],
-                "mir_smt::qratio_full_width", entry["solver_s"], entry["checks"],
+                entry["harness"], entry["solver_s"], entry["checks"],
                 entry.get("paths"), entry.get("reason", "")))
             if verdict == "pass":
                 nontrivial.add(("mir_smt", "MIR"))
@@ -671,7 +674,7 @@ def cmd_check(args):
                 violations.append(("MIR", None, rp, [(info["solver_query"], str(info["counterexample"]))]))
             else:
                 class _H:
-                    name = "mir_smt::qratio_full_width"
+                    name = entry["harness"]
                 undecided.append(("MIR", _H, entry.get("reason", "")))
         for nm, ok, detail in extra_builds:
             samples.append({"build_fact": nm, "ok": ok, "detail": detail})
@@ -711,13 +714,13 @@ def cmd_check(args):
                         "was decided SUCCESSFUL with >=1 reachable check and all its cover "
                         "witnesses satisfied",
                 "samples": samples,
-                "harness_instances": len(results),
+                "harness_instances": len(results) + (1 if smt else 0),
                 "undecided": len(undecided),
                 "known_findings_hit": len(seen),
                 "solver_seconds_total": round(solver_time, 1),
                 "engine": "kani 0.68.0 / CBMC 6.11.0 / CaDiCaL; unwinding assertions on"
-                          + ("; plus nightly MIR -> SMT-LIB2 -> z3 4.8.12 + cvc5 1.0.3 for the "
-                             "Q-ratio slice" if smt else ""),
+                          + ("; plus nightly MIR -> SMT-LIB2 -> z3 4.8.12 + cvc5 1.0.3 for one "
+                             "loop-free arithmetic slice" if smt else ""),
                 "exhaustive": False,
             },
             "assumptions": sorted({s for h in sel for s in
@@ -729,7 +732,7 @@ def cmd_check(args):
         if not args.only:
             json.dump(ev, open(ev_path, "w"), indent=1)
         log("[vf] %s tier=%s: %d instances, %d checks, %d undecided, %d violations, %.0fs wall -> exit %d"
-            % (prop, tier, len(results), n_checks, len(undecided), len(violations),
+            % (prop, tier, len(results) + (1 if smt else 0), n_checks, len(undecided), len(violations),
                time.time() - t0, exit_code))
     finally:
         if not os.environ.get("VERIF_KEEP"):
@@ -741,21 +744,26 @@ def cmd_check(args):
     return exit_code
 
 
-def qr_native(crate_dir, logdir, triples, tag):
-    """run the real code on quartile triples (native test native_qr_replay of harness/gen.rs);
-    returns (failed, {(q1,q2,q3,pint): value}, panics)"""
+def qr_native(crate_dir, logdir, triples, tag, kind="qratio"):
+    """run the real code on quartile triples (native test native_qr_replay of harness/gen.rs) or,
+    kind == "len", on (len, tail_len, slice length) triples (native_len_replay);
+    returns (failed, {inputs: outputs}, panics, ran)"""
+    test = {"qratio": "native_qr_replay", "len": "native_len_replay"}[kind]
     cmd = ["cargo", "kani", "playback", "-Z", "concrete-playback", "--lib",
            "--no-default-features", "--features", features_of("K1"),
-           "--", "native_qr_replay", "--test-threads", "1", "--nocapture"]
-    lf = os.path.join(logdir, "native-qr-%s.log" % tag)
+           "--", test, "--test-threads", "1", "--nocapture"]
+    lf = os.path.join(logdir, "native-%s-%s.log" % (kind, tag))
     env_add = {}
-    if triples:
+    if triples and kind == "len":
+        env_add["VERIF_LEN"] = ";".join("%d,%d,%d" % t for t in triples)
+    elif triples:
         env_add["VERIF_QR"] = ";".join("%d,%d,%d,%d" % (a, b, c, 1 if d else 0)
                                        for a, b, c, d in triples)
     old = {k: os.environ.get(k) for k in env_add}
     os.environ.update(env_add)
     try:
-        rc, to, _ = run_cmd(cmd, crate_dir, 1200, lf, limit=False)
+        # (a counterexample with a multi-GiB slice may make changed code hash all of it)
+        rc, to, _ = run_cmd(cmd, crate_dir, 3000 if kind == "len" else 1200, lf, limit=False)
     finally:
         for k, v in old.items():
             if v is None:
@@ -766,6 +774,8 @@ def qr_native(crate_dir, logdir, triples, tag):
     table = {}
     for m in re.finditer(r"(?:^|\s)QR (\d+) (\d+) (\d+) ([01]) (\d+)$", out, re.M):
         table[(int(m.group(1)), int(m.group(2)), int(m.group(3)), m.group(4) == "1")] = int(m.group(5))
+    for m in re.finditer(r"(?:^|\s)LN (\d+) (\d+) (\d+) (\d+) (\d+)$", out, re.M):
+        table[(int(m.group(1)), int(m.group(2)), int(m.group(3)))] = (int(m.group(4)), int(m.group(5)))
     # (with --nocapture the test's own output sits between `test <name> ...` and the verdict)
     failed = re.search(r"^test result: FAILED", out, re.M) is not None
     ran = re.search(r"^running 1 test", out, re.M) is not None
@@ -774,21 +784,28 @@ def qr_native(crate_dir, logdir, triples, tag):
 
 
 def run_mir_smt(prop, tier, crate_dir, logdir):
-    """C01 only: second back end (nightly MIR -> SMT-LIB2 -> z3 + cvc5) for the Q-ratio
-    arithmetic at full width; see run/mirq.py.  Returns (evidence entry, verdict, replay info)."""
+    """Second back end (nightly MIR -> SMT-LIB2 -> z3 + cvc5), see run/mirq.py: the Q-ratio
+    arithmetic at full width (C01, C10) and the length arithmetic of update (C11).
+    Returns (evidence entry, verdict, replay info)."""
     if prop not in MIR_SMT_PROPS:
         return None
+    kind = MIR_SMT_KIND[prop]
     sys.path.insert(0, os.path.dirname(os.path.abspath(__file__)))
     import mirq
     t0 = time.time()
-    r = mirq.run_check(crate_dir, os.path.join(BUILD, "tgt-mir"), logdir,
-                       timeout=int(os.environ.get("VERIF_SMT_TIMEOUT", "120")))
-    entry = {"harness": "mir_smt::qratio_full_width", "config": "MIR", "features": "std,easy-functions",
+    to = int(os.environ.get("VERIF_SMT_TIMEOUT", "120"))
+    if kind == "qratio":
+        r = mirq.run_check(crate_dir, os.path.join(BUILD, "tgt-mir"), logdir, timeout=to)
+        hname = "mir_smt::qratio_full_width"
+    else:
+        r = mirq.run_check_len(crate_dir, os.path.join(BUILD, "tgt-mir"), logdir, timeout=to)
+        hname = "mir_smt::update_len_full_width"
+    entry = {"harness": hname, "config": "MIR", "features": "std,easy-functions",
              "verdict": {"pass": "pass", "fail": "fail", "undecided": "undecided"}[r["verdict"]],
              "engine": "rustc nightly -Zunpretty=mir -> SMT-LIB2 (QF_BV + FP) -> z3 4.8.12, cvc5 1.0.3 "
                        "(bit-blasting and --solve-bv-as-int=sum)",
              "checks": len(r["queries"]),
-             "failed_checks": sum(1 for q in r["queries"] if q["verdict"] == "refuted"),
+             "failed_checks": sum(1 for q in r["queries"] if q["verdict"].startswith("refuted")),
              "queries": {k: sum(1 for q in r["queries"] if q["kind"] == k)
                          for k in sorted({q["kind"] for q in r["queries"]})},
              "solver_s": r.get("solver_s", 0.0), "functions": r["functions"], "bound": r["bound"],
@@ -798,28 +815,38 @@ def run_mir_smt(prop, tier, crate_dir, logdir):
         entry["reason"] = r["reason"][:600]
     info = None
     if r["verdict"] == "fail":
-        q1, q2, q3, pint = mirq.replay_values(r)
-        failed, table, panics, ran = qr_native(crate_dir, logdir, [(q1, q2, q3, pint)], "replay")
-        info = {"property": prop, "harness": "mir_smt::qratio_full_width", "config": "MIR",
-                "counterexample": {"q1": q1, "q2": q2, "q3": q3, "pure_integer_mode": pint},
-                "solver_query": r["cex"]["query"], "native_test": "native_qr_replay",
-                "native": {"failed": failed, "panics": panics,
-                           "real_code_value": {"%d,%d,%d,%d" % k: v for k, v in table.items()}},
-                "reproduced_natively": bool(failed and panics),
-                "how_to_replay": "VERIF_QR=%d,%d,%d,%d python3 run/vf.py native K1 native_qr_replay"
-                                 % (q1, q2, q3, 1 if pint else 0)}
+        if kind == "qratio":
+            q1, q2, q3, pint = mirq.replay_values(r)
+            failed, table, panics, ran = qr_native(crate_dir, logdir, [(q1, q2, q3, pint)], "replay")
+            cexd = {"q1": q1, "q2": q2, "q3": q3, "pure_integer_mode": pint}
+            how = "VERIF_QR=%d,%d,%d,%d python3 run/vf.py native K1 native_qr_replay" % (
+                q1, q2, q3, 1 if pint else 0)
+            ntest = "native_qr_replay"
+            tbl = {"%d,%d,%d,%d" % k: v for k, v in table.items()}
+        else:
+            ln, tl, n = mirq.replay_values_len(r)
+            failed, table, panics, ran = qr_native(crate_dir, logdir, [(ln, tl, n)], "replay", "len")
+            cexd = {"len": ln, "tail_len": tl, "slice_len": n}
+            how = "VERIF_LEN=%d,%d,%d python3 run/vf.py native K1 native_len_replay" % (ln, tl, n)
+            ntest = "native_len_replay"
+            tbl = {"%d,%d,%d" % k: list(v) for k, v in table.items()}
+        info = {"property": prop, "harness": hname, "config": "MIR", "kind": kind,
+                "counterexample": cexd, "solver_query": r["cex"]["query"], "native_test": ntest,
+                "native": {"failed": failed, "panics": panics, "real_code_value": tbl},
+                "reproduced_natively": bool(failed and panics), "how_to_replay": how}
         if not info["reproduced_natively"]:
             entry["verdict"] = "undecided"
             entry["reason"] = "solver counterexample did not reproduce natively (translator wrong?)"
     elif r["verdict"] == "pass" and tier == "thorough":
-        # translator validation: the real code's values on a fixed table of quartile triples must
-        # be the values the MIR-derived terms take on the same inputs
-        failed, table, panics, ran = qr_native(crate_dir, logdir, None, "table")
+        # translator validation: the real code's values on a fixed table of inputs must be the
+        # values the MIR-derived terms take on the same inputs
+        failed, table, panics, ran = qr_native(crate_dir, logdir, None, "table", kind)
         if failed or not table:
             entry["verdict"] = "undecided"
             entry["reason"] = "translator validation: native table run failed: %s" % panics
         else:
-            bad = mirq.validate_against(table, logdir)
+            bad = mirq.validate_against(table, logdir) if kind == "qratio" else \
+                mirq.validate_len_against(table, logdir)
             entry["translator_validation"] = {"triples": len(table), "mismatches": bad[:3]}
             entry["checks"] += len(table)
             if bad:
@@ -857,9 +884,13 @@ def cmd_replay(args):
         try:
             ld = os.path.join(BUILD, "logs", "replay")
             os.makedirs(ld, exist_ok=True)
-            failed, table, panics, ran = qr_native(
-                crate_dir, ld, [(c["q1"], c["q2"], c["q3"], c["pure_integer_mode"])], "replay")
-            log("[vf] real code on quartiles %s: %s %s" % (c, table, panics))
+            if info.get("kind") == "len":
+                failed, table, panics, ran = qr_native(
+                    crate_dir, ld, [(c["len"], c["tail_len"], c["slice_len"])], "replay", "len")
+            else:
+                failed, table, panics, ran = qr_native(
+                    crate_dir, ld, [(c["q1"], c["q2"], c["q3"], c["pure_integer_mode"])], "replay")
+            log("[vf] real code on %s: %s %s" % (c, table, panics))
             log("[vf] native replay: %s" % ("the violation reproduces" if failed else "no failure"))
             return 1 if failed else 0
         finally:
